@@ -34,7 +34,7 @@ func (a *NominationAttribute) GetFromWithType(m *stun.Message, attrType stun.Att
 	if err != nil {
 		return err
 	}
-	if len(v) < 4 {
+	if len(v) != 4 {
 		return stun.ErrAttributeSizeInvalid
 	}
 
